@@ -111,6 +111,15 @@ def stepStructural (cx : Ctx) (op : String) (args : List String) : Option MOut :
     let (_, toks, _, err) := drainColWord m d steps [] []
     (toks, consumption steps, err)
   match op, args with
+  | "new", [c, r] => do
+    let c ← nat? c; let r ← nat? r
+    pure (viaHistory cx (.newArr c r 0))
+  | "init", [c, r, v] => do
+    let c ← nat? c; let r ← nat? r; let v ← nat? v
+    pure (viaHistory cx (.initArr c r (cx.v v)))
+  | "from_vec", [c, r, l] | "from_box", [c, r, l] => do
+    let c ← nat? c; let r ← nat? r; let l ← parseList l
+    pure (viaHistory cx (.fromVec c r (cx.vs l)))
   | "insert_row", [i, l, ev] => do
     let i ← nat? i; let it ← script l ev
     pure (viaHistory cx (.insertRow i it (spareFor it.claimed)))
@@ -173,9 +182,9 @@ def stepStructural (cx : Ctx) (op : String) (args : List String) : Option MOut :
   | "swap_dimensions", [] => pure (viaHistory cx .swapDimensions)
   | "reserve", [n] | "reserve_exact", [n] => do
     let n ← nat? n
-    if reserveOk cx.capLimit t.data.length n then pure (viaHistory cx .capacityCall) else pure (cx.fail .panic)
-  | "shrink_to_fit", [] => pure (viaHistory cx .capacityCall)
-  | "capacity", [] => pure (viaHistory cx .capacityCall ["1"])
+    pure (viaHistory cx (.capacityCall (some n)))
+  | "shrink_to_fit", [] => pure (viaHistory cx (.capacityCall none))
+  | "capacity", [] => pure (viaHistory cx (.capacityCall none) ["1"])
   | _, _ => none
 
 def stepConv (cx : Ctx) (rc : Recv) (op : String) (args : List String) : Option MOut :=
@@ -225,6 +234,16 @@ def leNat (a b : Nat) : Bool := a ≤ b
 
 /-- the comparator the harness passes to a sort op: natural order for `*_ord`, `val % 8` (as comparator or as key) otherwise -/
 def sortLe (op : String) : Nat → Nat → Bool := if op.endsWith "_ord" then leNat else le8
+
+/-- the protocol's sort op names are the crate's method names -/
+def sortMethod? : String → Option SortMethod
+  | "sort_by_row" => some .sort_by_row | "sort_unstable_by_row" => some .sort_unstable_by_row
+  | "sort_by_row_key" => some .sort_by_row_key | "sort_unstable_by_row_key" => some .sort_unstable_by_row_key
+  | "sort_row_ord" => some .sort_row_ord | "sort_unstable_row_ord" => some .sort_unstable_row_ord
+  | "sort_by_col" => some .sort_by_col | "sort_unstable_by_col" => some .sort_unstable_by_col
+  | "sort_by_col_key" => some .sort_by_col_key | "sort_unstable_by_col_key" => some .sort_unstable_by_col_key
+  | "sort_col_ord" => some .sort_col_ord
+  | _ => none
 
 /-- an in-place op line as a model operation (shared by the Impl-model's prediction `M` and the property oracle `S`);
     `side` = what the side sort of a sort op does (stable sort / reconstructed permutation / caller-code panic) -/
@@ -280,6 +299,15 @@ def stepInplace (cx : Ctx) (rc : Recv) (op : String) (args : List String) (robs 
       | .error e => pure (cx.fail e)
     | _ => none
   else if op.startsWith "sort_unstable" then none      -- the permutation is a model input: `stepUnstable` (Run.lean)
+  else if op.startsWith "sort_" ∧ !(cx.fault ∧ robs.map (·.status) = some "panic") then
+    -- a stable sort method whose caller code does not panic: the method's own transcribed body (`Recv.runSort`, C16_methods_dispatch)
+    match sortMethod? op, args with
+    | some meth, [k] => do
+      let k ← nat? k
+      match rc.runSort m sideLimit data meth (sortLe op) [] k with
+      | .ok d => pure { cx.same with data := d }
+      | .error e => pure (cx.fail e)
+    | _, _ => none
   else if (op ∈ ["copy_from_slice", "copy_from_toodee", "copy_within"]) ∧ cx.elem ≠ .u32 then
     some { cx.same with status := "unsupported" }        -- `T: Copy` only
   else
